@@ -5,12 +5,6 @@ CONSTANT FixF5 = TRUE
 CONSTANT AddFirst = TRUE
 CONSTANT Procs = {"p1", "p2"}
 CONSTANT Jobs = {"a", "b", "c"}
-CONSTRAINT OneDeath
-INVARIANT TypeOK
-INVARIANT Capacity
-INVARIANT MutualExclusion
-INVARIANT ObserversSurvive
+CONSTRAINT NoDeath26
 INVARIANT Informed
-INVARIANT NoOrphanEmptyFile
-PROPERTY ReclaimOnlyAfterEnd
 CHECK_DEADLOCK FALSE
